@@ -11,18 +11,18 @@ Trace == ndJsonDeserialize(IOEnv.TRACE_FILE)
 
 VARIABLE l
 
-tvars == <<l, types, genNs, pc, ti, wi, first, made, index, linked, held, par, kids, out>>
+tvars == <<l, types, genNs, spell, pc, ti, wi, first, made, index, linked, held, par, kids, out>>
 
 TInit ==
     /\ l = 1
-    /\ types = <<>> /\ genNs = FALSE /\ pc = "trace" /\ ti = 0 /\ wi = 0 /\ first = <<>> /\ made = {} /\ index = {}
+    /\ types = <<>> /\ genNs = FALSE /\ spell = "trace" /\ pc = "trace" /\ ti = 0 /\ wi = 0 /\ first = <<>> /\ made = {} /\ index = {}
     /\ linked = {} /\ held = {} /\ par = {} /\ kids = {} /\ out = <<>>
 
 TNext ==
     /\ l <= Len(Trace)
     /\ LET v == Verdict(Trace[l]) IN IF v[1] = "ok" THEN TRUE ELSE PrintT(<<"REJECT", Trace[l].id, v[1], v[2]>>)
     /\ l' = l + 1
-    /\ UNCHANGED <<types, genNs, pc, ti, wi, first, made, index, linked, held, par, kids, out>>
+    /\ UNCHANGED <<types, genNs, spell, pc, ti, wi, first, made, index, linked, held, par, kids, out>>
 
 TSpec == TInit /\ [][TNext]_tvars
 
